@@ -1356,7 +1356,13 @@ func (e *Env) callExpr(t ECall) (Val, error) {
 		if e.old == nil {
 			return Val{}, fmt.Errorf("isfresh without pre-state")
 		}
-		return scalar(boolT, Gt(App("root", SInt, v.S[0]), e.old.Alloc)), nil
+		ref := v.S[0]
+		if v.T != nil {
+			if _, isIface := v.T.Underlying().(*types.Interface); isIface && len(v.S) == 2 {
+				ref = v.S[1] // the object behind the interface value
+			}
+		}
+		return scalar(boolT, Gt(App("root", SInt, ref), e.old.Alloc)), nil
 	case "int": // widen to mathematical / Go int
 		v, err := e.Eval(t.Args[0])
 		if err != nil {
